@@ -401,7 +401,7 @@ pub fn run(ctx: &mut Ctx) {
             let style = ctx.rng.below(3);
             let ops: Vec<AOp> = (0..300).map(|_| match ctx.rng.below(6) {
                 0 => if ctx.rng.chance(1, 4) { AOp::Idle } else { AOp::Fl },
-                1 => { let n = 1 + ctx.rng.below(12) as usize; AOp::Wr((0..n).map(|_| ctx.rng.byte()).collect()) },
+                1 => { let n = if ctx.rng.chance(1, 6) { *ctx.rng.pick(&[255usize, 256, 257, 488, 1020]) } else { 1 + ctx.rng.below(12) as usize }; AOp::Wr((0..n).map(|_| ctx.rng.byte()).collect()) },
                 _ => AOp::Rd(match style { 0 => 1 + ctx.rng.below(8) as usize, 1 => 1 + ctx.rng.below(300) as usize, _ => 1 + ctx.rng.below(2000) as usize }),
             }).collect();
             ops_case(ctx, fl, &ops, &dg);
@@ -471,6 +471,12 @@ pub fn run(ctx: &mut Ctx) {
                 let k = 1 + ctx.rng.below(5) as usize;
                 let fr: Vec<Vec<u8>> = (0..k).map(|_| ctx.rng.pick(&any).clone()).collect();
                 write_case(ctx, fl, compressed, &fr);
+            }
+            // … including every large frame (well beyond 255 bytes in compressed mode), alone and between small ones
+            let bigs = big_frames(compressed);
+            for b in &bigs {
+                write_case(ctx, fl, compressed, &[b.clone()]);
+                write_case(ctx, fl, compressed, &[ka.clone(), b.clone(), ka.clone()]);
             }
         }
     }
